@@ -167,6 +167,12 @@ pub fn explore(ctx: &Ctx, base: &BaseTables, sc: &ExtScenario, defs: &[Def], sds
         Some(TableModel::F2(t)) => t.entries.len(),
         Some(TableModel::F1(t)) => t.max_entry_index as usize,
     };
+    let only_gk = |t: &Option<TableModel>| match t {
+        None => true,
+        Some(TableModel::F1(t)) => t.patch_format == 3,
+        Some(TableModel::F2(t)) => t.entries.iter().all(|e| e.patch_format.unwrap_or(t.default_format) == 3),
+    };
+    let all_glyph_keyed = only_gk(&Some(sc.ift.clone())) && only_gk(&sc.iftx);
     let ift = Some(sc.ift.clone());
     let horizon = n_entries(&ift) + n_entries(&sc.iftx) + 2;
     let font = wrap_font(
@@ -268,6 +274,13 @@ pub fn explore(ctx: &Ctx, base: &BaseTables, sc: &ExtScenario, defs: &[Def], sds
                         ctx.run.violation(
                             "extension run: bookkeeping changed although the round failed",
                             &format!("{e:?}"),
+                            case(),
+                        );
+                    }
+                    if sc.consistent_store && all_glyph_keyed {
+                        ctx.run.violation(
+                            "extension run: a round fails although every entry is glyph keyed and the store supplied consistent data for every selected URI",
+                            &format!("{e:?} group {uris:?}"),
                             case(),
                         );
                     }
@@ -438,6 +451,17 @@ fn scenarios(thorough: bool) -> Vec<ExtScenario> {
                     });
                 }
             }
+        }
+    }
+    // string ids that differ only by NUL bytes (glyph keyed): every entry must end up applied
+    for g in crate::extra::nul_id_groups() {
+        let mut t = crate::extra::t2_with_string_ids(b"p/{id}", &g);
+        for (i, x) in t.entries.iter_mut().enumerate() {
+            x.cps = Cps::Set { bias_kind: 0, bias: 0, members: if i % 2 == 0 { vec![A] } else { vec![B] } };
+            x.patch_format = Some(3);
+        }
+        for x in &iftx_opts[..2] {
+            out.push(ExtScenario { ift: TableModel::F2(t.clone()), iftx: x.clone(), consistent_store: true });
         }
     }
     // format-1 IFT (glyph keyed, feature map) with the IFTX options
